@@ -170,6 +170,37 @@ def run(ctx):
             ctx.violations.append({'stream': 'pair', 'case': show, 'impl': str(sig)[:400], 'model': str(pref[key][0])[:400],
                                    'what': f'two files stored as {e1} + {e2} ({"directory" if as_dir else "arguments"}, library file {libname}) give a different result than stored as '
                                            f'{pref[key][1][0]} + {pref[key][1][1]} ({"directory" if pref[key][1][3] else "arguments"}, {pref[key][1][2]})'})
+    # ---------------- (e) the same decoded text in the editor: the language server publishes the positions `check` prints for
+    #                    the stored file (characters / UTF-16 units after non-ASCII text on the line)
+    from .. import lspclient
+    ed = [(pi, kind, txt) for pi, (kind, txt) in enumerate(progs) if kind not in ('valid', 'lexical-error-tail', 'block-boundary') and any(ord(c) > 127 for c in txt)]
+    ed = ed[:(6 if ctx.quick() else 40)]
+    ed_sess = lspclient.sessions([[('open', 'f0', 1, txt), ('shutdown', 9), ('exit',)] for (_, _, txt) in ed], jobs=6)
+    for (pi, kind, txt), se in zip(ed, ed_sess):
+        ctx.evaluations += 1
+        ctx.count('editor:documents')
+        cl = run_file('check', txt.encode('utf-8'))
+        if not se['diags']: continue
+        lsp = sorted({(d[0], d[1], d[2]) for d in se['diags'][-1]})
+        lines = txt.split('\n')
+        def variants(code, line, col):
+            # the command line counts a column in bytes, characters or UTF-16 units of the line
+            out = set()
+            if line is None or line - 1 >= len(lines): return out
+            raw = lines[line - 1].encode('utf-8')
+            for cut in range(len(lines[line - 1]) + 1):
+                pre = lines[line - 1][:cut]
+                if col - 1 in (len(pre.encode('utf-8')), len(pre), len(pre.encode('utf-16-le')) // 2):
+                    out |= {(code, line - 1, len(pre)), (code, line - 1, len(pre.encode('utf-16-le')) // 2)}
+            return out
+        want = [variants(d[0], d[2], d[3]) for d in cl['diags'] if d[1] is not None]
+        ok = len(want) == len(lsp) and all(any(x in w for w in want) for x in lsp)
+        if not ok and want:
+            ctx.violations.append({'stream': 'editor', 'case': {'stream': 'editor', 'what': [pi, kind], 'action': 'lsp', 'text': txt[:1500]},
+                                   'impl': str(lsp)[:300], 'model': str([(d[0], d[2], d[3]) for d in cl['diags']])[:300],
+                                   'what': 'the positions published by the language server for the decoded text are not the positions `ironplcc check` prints for the stored file'})
+        else:
+            ctx.feature(('editor', pi, kind))
     with cf.ThreadPoolExecutor(14) as ex:
         res = list(ex.map(lambda j: run_file(j[3], j[4]), jobs))
     model = core.run_lines(core.PLCDRV, ['decodelex ' + j[4].hex() for j in jobs], jobs=8) if ctx.model_available else [None] * len(jobs)
